@@ -73,6 +73,7 @@ type Profile struct {
 	WalStmts        int     // number of statements whose every log event gets an image
 	RawDMLOnly      bool    // raw statements: SELECT, INSERT, UPDATE, DELETE only (the model keeps following the tables)
 	LazyWakeP       float64 // probability that a plan runs with Knobs.LazyWake
+	QuietP          float64 // probability that a plan runs with Knobs.Quiet
 	OpenFailP       float64 // probability that a USE of another database meets an open error (EMFILE) at the log or data file
 	FatP            float64 // probability that a plan's tables hold only rows within a few bytes of the row limit (leaves of 8 maximal cells)
 	fat             bool
@@ -1613,6 +1614,9 @@ func (g *gen) pickKnobs() Knobs {
 	}
 	if len(pf.FlushMargins) > 0 {
 		k.FlushMargin = pf.FlushMargins[g.r.Intn(len(pf.FlushMargins))]
+	}
+	if pf.QuietP > 0 && g.r.Chance(pf.QuietP) {
+		k.Quiet = true
 	}
 	return k
 }
